@@ -333,6 +333,10 @@ def ov_case(case):
                 else:
                     ov.update(vals[i].copy() if isinstance(vals[i], np.ndarray) else vals[i], weight=w[i])
         v = ov.parallelVariance()
+        if case.get('again'):
+            # the combined statistics are asked for a second time on the live accumulators (a second solution, a
+            # second output): the same answer
+            v = ov.parallelVariance()
         return {'var': v, 'mean': _SPY_TL.mean, 'count': ov.count}
 
     res = both_orders(r, R, fn, 'ov')
@@ -340,7 +344,7 @@ def ov_case(case):
                    failure=res.describe(), cause=repr(res.cause), counts=counts, weights=w):
         r.observe(res.verdict)
         return r
-    r.check(len(res.collectives) == 4 and all(c[0] == 'allgather' for c in res.collectives),
+    r.check(len(res.collectives) == (8 if case.get('again') else 4) and all(c[0] == 'allgather' for c in res.collectives),
             'collectives', 'ov/collective-sequence', got=res.collectives)
     shp = SHAPES[case['shape']]
     want_v = ref.wvar(vals, w) if n > 0 else None
@@ -415,6 +419,9 @@ def ov_cases(tier):
             if shape in ('vec', 'mat') and vals == 'generic' and n >= 2 and all(x > 0 for x in w):
                 cases.append({'R': R, 'n': n, 'w': list(w), 'assign': list(assign), 'shape': shape, 'vals': vals,
                               'inplace': True})
+            if shape == 'vec' and vals == 'generic' and n >= 2:
+                cases.append({'R': R, 'n': n, 'w': list(w), 'assign': list(assign), 'shape': shape, 'vals': vals,
+                              'again': True})
     devs = [('vec', 'generic'), ('scalar', 'generic'), ('mat', 'generic'), ('vec', 'const'), ('vec', 'offset'),
             ('vec', 'pair')]
     if tier == 'quick':
